@@ -38,6 +38,7 @@ PROGRAMS = [
     'function run(items, cb) { var count = 0; try { go(); } catch (err) { items.forEach(function (a, b) { var c = a; cb(a, b, err, count, items, c); }); } }',
     'function t() { try { } catch (e) { return function (x, y) { return function (z) { return x + y + z + e + t; }; }; } }',
     'function poll(queue) { ready: while (queue.length) { if (ready) break ready; queue.pop(); } }',
+    'function s(a) { var b = "one \\\ntwo" + a; return b + \'x\\\r\\ny\'; }',
     'function o() { var done = 0; function i() { done: for (;;) { done = 1; continue done; } } return i; }',
 ]
 
@@ -174,6 +175,29 @@ def main(run, tier):
     import contracts.obfuscation as cob
     verify_functions(run, cob.build(obfmod), {}, {}, tier=tier)
     name_generator_obligation(run, obfmod, lexmod, tier)
+    # what the obfuscation rule set plugs into a printer: the identifier resolver, its token handler and the pre-walk -- nothing that
+    # could alter any other token ("differs only in identifier spellings")
+    rt_ = importlib.import_module('calmjs.parse.ruletypes')
+    core_h = importlib.import_module('calmjs.parse.handlers.core')
+    for og_ in (False, True):
+        rd = rules.obfuscate(obfuscate_globals=og_)()
+        probs_ = []
+        if set(rd) - {'token_handler', 'deferrable_handlers', 'prewalk_hooks', 'layout_handlers', 'definitions'}:
+            probs_.append('unexpected keys %r' % sorted(set(rd) - {'token_handler', 'deferrable_handlers', 'prewalk_hooks'}))
+        if set(rd.get('deferrable_handlers', {})) != {rt_.Resolve}:
+            probs_.append('deferrable handlers for %r' % sorted(getattr(k_, '__name__', str(k_)) for k_ in rd.get('deferrable_handlers', {})))
+        if rd.get('layout_handlers') or rd.get('definitions'):
+            probs_.append('layout handlers / definitions are replaced')
+        if rd.get('token_handler') is not core_h.token_handler_unobfuscate:
+            probs_.append('token handler %r' % (rd.get('token_handler'),))
+        if len(rd.get('prewalk_hooks', [])) != 1:
+            probs_.append('%d prewalk hooks' % len(rd.get('prewalk_hooks', [])))
+        nm_ = 'O-rules[obfuscate(obfuscate_globals=%s) plugs in only the resolver]' % og_
+        if probs_:
+            run.failed(nm_, 'E2/tables', probs_[0], dict(problems=probs_), observed='; '.join(probs_),
+                       required='only Resolve is deferred to the obfuscator; every other token is printed as without obfuscation', replayed=True)
+        else:
+            run.discharged(nm_, 'E2/tables', 'exec', 0.0)
     # ---- exhaustive small obligations
     from .. import charclass as cc
     sets = cc.es5_sets()
